@@ -108,6 +108,8 @@ pub enum ReplyLine {
     /// value line carrying one of several malformed tokens (a literal cut after its sign, doubled or
     /// trailing signs, decimal point, hexadecimal, full-width digit)
     VBadTok(u8),
+    /// value line with these numeric tokens followed by one malformed token (e.g. after the terminating 0)
+    VTail(Vec<i16>, u8),
     Comment(u8),
     BareC,
     Empty,
@@ -138,6 +140,16 @@ fn reply_text(lines: &[ReplyLine], crlf: bool, final_newline: bool) -> String {
             }
             ReplyLine::VBad => "v 1 x2 0".into(),
             ReplyLine::VBadTok(k) => VBAD[*k as usize % VBAD.len()].into(),
+            ReplyLine::VTail(t, k) => {
+                let mut s = String::from("v");
+                for x in t {
+                    s.push(' ');
+                    s.push_str(&x.to_string());
+                }
+                s.push(' ');
+                s.push_str(["foo", "-", "0x0", "c", "s", "v"][*k as usize % 6]);
+                s
+            }
             ReplyLine::Comment(k) => format!("c {}", "comment ".repeat(*k as usize % 5)),
             ReplyLine::BareC => "c".into(),
             ReplyLine::Empty => "".into(),
@@ -202,7 +214,7 @@ pub fn ref_reply(lines: &[ReplyLine], nvars: usize) -> RefReply {
                     }
                 }
             }
-            ReplyLine::VBad | ReplyLine::VBadTok(_) => return RefReply::Invalid("non-numeric token in value line"),
+            ReplyLine::VBad | ReplyLine::VBadTok(_) | ReplyLine::VTail(..) => return RefReply::Invalid("non-numeric token in value line"),
             ReplyLine::Garbage | ReplyLine::Stray(_) => return RefReply::Invalid("line outside the output format"),
             ReplyLine::Comment(_) | ReplyLine::BareC | ReplyLine::Empty => {}
         }
@@ -288,6 +300,7 @@ fn reply_lines(nvars: usize) -> BoxedStrategy<Vec<ReplyLine>> {
         1 => Just(10u8), // v before s
         1 => Just(11u8), // drop all v lines
         2 => Just(12u8), // a stray line resembling a format line
+        3 => Just(13u8), // more tokens on the SAME value line after the terminating 0
     ];
     (well, corrupt, any::<u16>())
         .prop_map(move |(mut lines, c, r)| {
@@ -302,6 +315,27 @@ fn reply_lines(nvars: usize) -> BoxedStrategy<Vec<ReplyLine>> {
                     }
                 }
                 3 => lines.push(ReplyLine::V(vec![0])),
+                13 => {
+                    // the line that carries the terminating 0 goes on: a second 0, an out-of-range literal, or
+                    // a token that is no number at all
+                    if let Some(i) = lines.iter().position(|l| matches!(l, ReplyLine::V(t) if t.contains(&0))) {
+                        if let ReplyLine::V(t) = lines[i].clone() {
+                            lines[i] = match r % 3 {
+                                0 => {
+                                    let mut t = t;
+                                    t.push(0);
+                                    ReplyLine::V(t)
+                                }
+                                1 => {
+                                    let mut t = t;
+                                    t.push(nv + 1 + (r % 5) as i16);
+                                    ReplyLine::V(t)
+                                }
+                                _ => ReplyLine::VTail(t, (r / 3) as u8),
+                            };
+                        }
+                    }
+                }
                 4 => lines.push(ReplyLine::V(vec![nv + 1 + (r % 3) as i16])),
                 5 => {
                     let p = pos(lines.len() + 1);
